@@ -575,7 +575,8 @@ func rawLabels(b []byte) map[string]struct{} {
 			for i < n && b[i] != '\n' {
 				i++
 			}
-		case c == '_' && i+1 < n && b[i+1] == ':':
+		case c == '_' && i+1 < n && b[i+1] == ':' && (i == 0 || strings.ContainsRune(" \t\r\n,;([>\"", rune(b[i-1]))):
+			// at the start of a token only (a prefixed name may contain "_:" in its local part)
 			j := i + 2
 			for j < n && !strings.ContainsRune(" \t\r\n,;)]<\"", rune(b[j])) {
 				j++
@@ -725,8 +726,36 @@ func resolveUnstable(base, v string) bool {
 	return err != nil || r.String() != v
 }
 
+// hasDotSegments: the path of the absolute IRI contains a "." or ".." segment (RFC 3986 resolution removes them;
+// the Turtle/TriG decoders resolve absolute IRIs too once a base is in scope)
+func hasDotSegments(v string) bool {
+	_, rest, ok := strings.Cut(v, ":")
+	if !ok {
+		return false
+	}
+	if i := strings.IndexAny(rest, "?#"); i >= 0 {
+		rest = rest[:i]
+	}
+	if strings.HasPrefix(rest, "//") {
+		if i := strings.Index(rest[2:], "/"); i >= 0 {
+			rest = rest[2+i:]
+		} else {
+			return false
+		}
+	}
+	for _, seg := range strings.Split(rest, "/") {
+		if seg == "." || seg == ".." {
+			return true
+		}
+	}
+	return false
+}
+
 func d14Keys(v string) []string {
 	var keys []string
+	if hasDotSegments(v) {
+		keys = append(keys, "pred:C02:abs-iri-dot-segments")
+	}
 	scheme, rest, ok := strings.Cut(v, ":")
 	if ok && strings.ToLower(scheme) != scheme {
 		keys = append(keys, "D14-scheme-has-uppercase")
